@@ -2073,8 +2073,15 @@ structure BuildArgs where
 def runBuilds (bs : List BuildArgs) (st : St) : St := bs.foldl (fun st b => runBuild b.cfg b.mods b.ios st) st
 
 theorem runBuild_configFails (cfg : Cfg) (st0 : St) (mods : List ModSpec) (ios : List TaskIO) (hcf : cfg.configFails = true) :
-    (runBuild cfg mods ios st0).w = st0.w ∧ (runBuild cfg mods ios st0).cm = st0.cm := by
-  simp [runBuild, buildOps, hcf, runOps]
+    (∃ r, (runBuild cfg mods ios st0).w = { st0.w with py := { st0.w.py with reportVars := r } }) ∧
+    (runBuild cfg mods ios st0).cm = st0.cm ∧
+    (cfg.failsInDatabase = false → (runBuild cfg mods ios st0).w = st0.w) := by
+  cases hd : cfg.failsInDatabase
+  · refine ⟨⟨st0.w.py.reportVars, ?_⟩, ?_, fun _ => ?_⟩ <;> simp [runBuild, buildOps, hcf, hd, runOps]
+  · have e : buildOps cfg mods ios = [Op.postParse "warnings", .postParse "profile", .postParse "mark", .postParse "logging",
+        .postParse "live", .postParse "execute"] := by
+      simp [buildOps, hcf, hd, Generated.postParseOrder, List.takeWhile]
+    refine ⟨⟨cfg.reportVars, ?_⟩, ?_, fun h => by cases h⟩ <;> (unfold runBuild; rw [e]; rfl)
 
 theorem builds_restore (bs : List BuildArgs) (st0 : St) (hw : StdW st0.w) : Restored st0 (runBuilds bs st0) := by
   induction bs generalizing st0 with
@@ -2083,7 +2090,7 @@ theorem builds_restore (bs : List BuildArgs) (st0 : St) (hw : StdW st0.w) : Rest
     have h1 : Restored st0 (runBuild b.cfg b.mods b.ios st0) := by
       cases hcf : b.cfg.configFails
       · exact (build_restores b.cfg st0 b.mods b.ios hcf hw).1
-      · have := (runBuild_configFails b.cfg st0 b.mods b.ios hcf).1
+      · obtain ⟨r, this⟩ := (runBuild_configFails b.cfg st0 b.mods b.ios hcf).1
         exact ⟨fun j => by rw [this], by rw [this], by rw [this]; exact hw.nofault, by rw [this], by rw [this], by rw [this],
           by rw [this], by rw [this], by rw [this]⟩
     exact h1.trans (ih _ (h1.std hw))
